@@ -85,7 +85,10 @@ def premises(ctx, M, rule_id):
 def rule_done(ctx, M, u):
     bi = u.bi
     slab = sf("futures")
-    ctx.require(len(u.cps) == 1, "FutureGroup::poll_next_inner child poll (found %d)" % len(u.cps))
+    ctx.require(len(u.cps) >= 1, "FutureGroup::poll_next_inner child poll (found %d)" % len(u.cps))
+    if len(u.cps) != 1:
+        # a second poll site (a "lone member" fast path) is outside the one gated scan the bookkeeping is defined for
+        ctx.fail("C11.POLL", u.where, "members are polled at %d sites; every member poll must be the gated scan site" % len(u.cps), site=u.cps[1].where)
     c = u.cps[0]
     re = bi.outcome_edges(c.site, "Ready")
     header, exits = common.loop_exits(bi, c.block)
